@@ -48,7 +48,7 @@ def write_tables(ctx, hdr):
 
 def script_text(sid, b):
     st = sum(SETBITS[s] for s in b["st"])
-    lines = ["S %d" % sid, "parse %d %d %s %s = ? ?" % (b["tb"], st, tok(b["argv"]), tok(bool(b["re"])))]
+    lines = ["S %d" % sid, "parse %d %d %s %s = ? ?" % (b["tb"], st, tok(b["argv"]), tok(bool(b["re"]) or not b["strict"]))]
     if "PRE" in b["st"]:
         lines.append("parse %d -1 - F = ? ?" % b["tb"])
     lines.append("E")
@@ -118,17 +118,17 @@ def bkey(b):
 
 
 def run_cfg(ctx, exe, cfg, state):
-    beh = []
+    raw = []        # behaviours as compact JSON text (hundreds of thousands in the thorough tier)
     hdrs = []
 
     def on_line(d):
         if d.get("header"):
             hdrs.append(d)
         else:
-            beh.append(d)
+            raw.append(json.dumps(d, separators=(",", ":")))
     workers = min(4, int(os.environ.get("VERIF_JOBS", "4")))
     res = run_tlc("MC_OptParse.tla", cfg, ctx.rundir, on_edge=on_line, workers=workers, timeout=3000, heap="8g")
-    nb = len(beh)
+    nb = len(raw)
     ctx.add("states", res.distinct)
     ctx.add("transitions", res.generated)
     ctx.add("behaviours_emitted", nb)
@@ -139,19 +139,26 @@ def run_cfg(ctx, exe, cfg, state):
     if not res.ok:
         ctx.report("spec:%s" % cfg, "TLC reports a violated property of the specification itself: %s" % (res.violation or "")[:600],
                    {"tlc": res.violation, "cfg": cfg})
-    unt = [a for a in res.untaken() if a.startswith("Op")]
-    if unt and not os.environ.get("C08_DEV"):
-        raise Broken("vacuity: actions never taken in MC_OptParse/%s: %s" % (cfg, unt))
+    for a, (d, g) in res.coverage.items():
+        if a.startswith("Op"):
+            state["taken"][a] = state["taken"].get(a, 0) + g
     if not hdrs or not nb:
         raise Broken("TLC emitted no header/behaviours for %s" % cfg)
     hdr = hdrs[0]
     tables = write_tables(ctx, hdr)
     t0 = time.time()
     # behaviours already executed under an earlier cfg of this run are not repeated
-    todo = [b for b in beh if bkey(b) not in state["seen"]]
-    for b in todo:
-        state["seen"].add(bkey(b))
-    texts = [script_text(k + 1, b) for k, b in enumerate(todo)]
+    todo = []
+    texts = []
+    for r in raw:
+        b = json.loads(r)
+        kb = bkey(b)
+        if kb in state["seen"]:
+            continue
+        state["seen"].add(kb)
+        todo.append(r)
+        texts.append(script_text(len(todo), b))
+    del raw
     jobs = min(4, int(os.environ.get("VERIF_JOBS", "4")))
     fails, recs, ns, nt = run_scripts(exe, [tables], texts, ctx.rundir, jobs=jobs, env={"VH_WATCHDOG": "30"}, tag="opt")
     ctx.add("traces_validated_against_impl", ns)
@@ -166,7 +173,12 @@ def run_cfg(ctx, exe, cfg, state):
     # pass that mismatches (later passes start from a state the specification does not describe)
     verdict = {}
     nstrict = npasses = 0
-    for k, b in enumerate(todo):
+    longest = None
+    for k, r in enumerate(todo):
+        b = json.loads(r)
+        if b["strict"] and "PRE" in b["st"] and (longest is None or len(b["argv"]) > len(longest["argv"]) or
+                                                (len(b["argv"]) == len(longest["argv"]) and k % 97 == 0)):
+            longest = b
         sid = k + 1
         vs = []
         npass = 2 if "PRE" in b["st"] else 1
@@ -200,13 +212,12 @@ def run_cfg(ctx, exe, cfg, state):
     ctx.add("passes_compared", npasses)
     ctx.cov.setdefault("replay", {})[cfg] = {"behaviours": len(todo), "scripts": ns, "calls": nt, "failing": len(verdict),
                                              "wall_s": round(time.time() - t0, 1)}
-    if todo:
-        ex = [b for b in todo if b["strict"] and len(b["argv"]) == max(len(x["argv"]) for x in todo) and "PRE" in b["st"]]
-        if ex:
-            b = ex[len(ex) // 2]
-            ctx.sample({"cfg": cfg, "table": b["tb"], "settings": sorted(b["st"]), "argv": [text(w) for w in b["argv"]],
-                        "expected_main": {"boolword": sorted(b["passes"][-1]["fl"]), "keep": b["passes"][-1]["keep"],
-                                          "bad": [b["passes"][-1]["badLo"], b["passes"][-1]["badHi"]]}})
+    if longest is not None:
+        b = longest
+        ctx.sample({"cfg": cfg, "table": b["tb"], "settings": sorted(b["st"]), "argv": [text(w) for w in b["argv"]],
+                    "expected_main": {"boolword": sorted(b["passes"][-1]["fl"]), "keep": b["passes"][-1]["keep"],
+                                      "targets_changed": [[j, tok(v)] for j, v in b["passes"][-1]["tv"]],
+                                      "bad": [b["passes"][-1]["badLo"], b["passes"][-1]["badHi"]]}})
     return hdr
 
 
@@ -233,9 +244,12 @@ def minimise(verdicts, key, v):
 
 def run(ctx):
     exe = harness(ctx)
-    state = {"seen": set(), "verdicts": {}}
+    state = {"seen": set(), "verdicts": {}, "taken": {}}
     for cfg in CFGS[ctx.tier]:
         state["hdr"] = run_cfg(ctx, exe, cfg, state)
+    unt = sorted(a for a, n in state["taken"].items() if n == 0)
+    if unt or len(state["taken"]) < 20:
+        raise Broken("vacuity: actions never taken in any scope of this tier: %s (%d actions seen)" % (unt, len(state["taken"])))
     verdicts = state["verdicts"]
     byf = {}        # finding key -> {minimal vector key: number of explored vectors that reduce to it}
     for key in sorted(verdicts):
